@@ -291,6 +291,17 @@ func Run(run *ev.Run) {
 				t := corpus.R(j.full)
 				baseMissing := refcodec.MissingRequired(j.set.Schema, t, j.d.tree, "", nil, nil)
 				expectedValue := refcodec.Zeroize(j.set.Schema, t, refcodec.FillDefaults(j.set.Schema, t, refcodec.TreeToValue(j.set.Schema, t, j.d.tree)))
+				// every few documents a decode that fails half-way through a record comes first (a malformed value in the
+				// first required field): whatever bookkeeping it abandons must not show in the decodes that follow
+				if j.seed%4 == 0 {
+					if doc, ok := malformedDoc(j.set.Schema, j.full); ok {
+						_, err := codec.Decode(codec.FormatByName("json-compact"), j.set, j.full, doc)
+						run.Count("failed_decodes_interleaved", 1)
+						if err == nil {
+							run.Count("observed_only.malformed_document_accepted", 1)
+						}
+					}
+				}
 				for _, rk := range readers {
 					lrng := rand.New(rand.NewSource(j.seed))
 					var extra []string
@@ -367,6 +378,39 @@ func Run(run *ev.Run) {
 	for _, rk := range readers {
 		run.Require("decodes."+rk.name, 200)
 	}
+	run.Require("failed_decodes_interleaved", 100)
+}
+
+// malformedDoc is a JSON document for the record that holds a value of the wrong JSON type in its first required field
+// and nothing else.
+func malformedDoc(s *corpus.Schema, full string) (string, bool) {
+	td := s.Lookup(full)
+	if td == nil || td.Kind != "record" {
+		return "", false
+	}
+	for _, f := range s.AllFields(td) {
+		if f.Optional || f.Default != nil {
+			continue
+		}
+		et, ftd := model.Resolve(s, f.Type)
+		wrong := ""
+		switch {
+		case ftd != nil && ftd.Kind == "record":
+			wrong = `"@@not-an-object@@"`
+		case ftd != nil:
+			return "", false // enums, fixed, unions, typerefs: a string or an object may be acceptable
+		case et.Array != nil || et.Map != nil:
+			wrong = `"@@not-a-container@@"`
+		case et.Prim == "string":
+			wrong = `{"not":"a string"}`
+		case et.Prim == "bytes":
+			return "", false
+		default:
+			wrong = `"@@not-a-number@@"`
+		}
+		return fmt.Sprintf(`{%q:%s}`, f.Name, wrong), true
+	}
+	return "", false
 }
 
 func bitsSet(m uint64) int {
